@@ -284,9 +284,9 @@ def register(reg):
         props = ("C02", "C16", "C15", "C14", "C12")
         result_kind = "seq:ref:" + EV
         modifies = ("NS.pending", "X.ver", "X.closed", "H2._read_exception", "H2._connection_error")
-        raises = NET_READ_RAISES + [RPE, H2_PROTOCOL_ERROR, "Cancelled", "OtherException"]
+        raises = NET_READ_RAISES + [RPE, "Cancelled", "OtherException"]
         raises_props = ("C15", "C14")
-        call_raises = NET_READ_RAISES + [RPE, H2_PROTOCOL_ERROR, "Cancelled"]
+        call_raises = NET_READ_RAISES + [RPE, "Cancelled"]
 
         def callsite(self, c, ev):
             s = c.self
@@ -319,10 +319,12 @@ def register(reg):
         def exc_checks(self, c, exc):
             s = c.self
             out = []
-            if exc.cls == RPE:
+            # RemoteProtocolError has two causes here: the peer hung up (empty read), or h2 rejected the peer's frames
+            from_h2 = exc.cls == RPE and bool(exc.args) and isinstance(exc.args[0], VExc) and exc.args[0].tag.get("from") == "h2.receive_data"
+            if exc.cls == RPE and not from_h2:
                 reads = [e for e in c.events("net.read") if "result" in e.data]
                 out.append(("disconnect_error_only_on_empty_read", ("C02", "C15"), z3.Length(reads[-1].data["result"].t) == 0 if reads else False))
-            if exc.cls in NET_READ_RAISES + [RPE]:
+            if exc.cls in NET_READ_RAISES + [RPE] and not from_h2:
                 out.append(("read_failure_marks_connection_errored", ("C14", "C01"), F(c, s, "H2._connection_error")))
             return out
 
@@ -417,9 +419,9 @@ def register(reg):
         params = {"stream_id": "opt:int"}
         modifies = ("NS.pending", "NS.written", "X.ver", "X.closed", "X.queue_ver", "H2._events", "H2._connection_terminated", "H2._read_exception", "H2._write_exception",
                     "H2._connection_error", "H2._max_streams", "H2._request_count", "Sem.permits", "SemG.mine")
-        raises = IO_RAISES + [RPE, CNA, H2_PROTOCOL_ERROR, "Cancelled", "OtherException"]
+        raises = IO_RAISES + [RPE, CNA, "Cancelled", "OtherException"]
         raises_props = ("C15", "C12")  # an internal error here reaches whichever caller is reading
-        call_raises = IO_RAISES + [RPE, CNA, H2_PROTOCOL_ERROR, "Cancelled"]
+        call_raises = IO_RAISES + [RPE, CNA, "Cancelled"]
         max_paths = 30000
 
         def setup(self, c):
@@ -511,9 +513,9 @@ def register(reg):
         params = {"stream_id": "int"}
         result_kind = "ref:" + EV
         modifies = ReceiveEvents.modifies
-        raises = IO_RAISES + [RPE, CNA, H2_PROTOCOL_ERROR, "Cancelled", "KeyError"]
+        raises = IO_RAISES + [RPE, CNA, "Cancelled", "KeyError"]
         raises_props = ("C15",)
-        call_raises = IO_RAISES + [RPE, CNA, H2_PROTOCOL_ERROR, "Cancelled"]
+        call_raises = IO_RAISES + [RPE, CNA, "Cancelled"]
 
         def setup(self, c):
             # this flow registered the stream (handle_async_request) and has not closed it yet
@@ -567,9 +569,9 @@ def register(reg):
         props = ("C02", "C15", "C16", "C01")
         params = {"stream_id": "int"}
         modifies = ReceiveEvents.modifies
-        raises = IO_RAISES + [RPE, CNA, H2_PROTOCOL_ERROR, "Cancelled"]
+        raises = IO_RAISES + [RPE, CNA, "Cancelled"]
         raises_props = ("C15",)
-        call_raises = IO_RAISES + [RPE, CNA, H2_PROTOCOL_ERROR, "Cancelled"]
+        call_raises = IO_RAISES + [RPE, CNA, "Cancelled"]
 
         def callsite(self, c, ev):
             if ev.name == "call:" + H2 + "._receive_stream_event":
@@ -650,7 +652,7 @@ def register(reg):
         props = ("C02", "C13", "C15", "C16", "C12")
         params = {"stream_id": "int"}
         modifies = ReceiveEvents.modifies
-        raises = IO_RAISES + [RPE, CNA, H2_PROTOCOL_ERROR, "Cancelled", "GeneratorExit"]
+        raises = IO_RAISES + [RPE, CNA, "Cancelled", "GeneratorExit"]
         raises_props = ("C15",)
 
         def callsite(self, c, ev):
@@ -704,7 +706,7 @@ def register(reg):
         params = {"stream_id": "int"}
         result_kind = "int"
         modifies = ReceiveEvents.modifies
-        raises = IO_RAISES + [RPE, CNA, H2_PROTOCOL_ERROR, "Cancelled"]
+        raises = IO_RAISES + [RPE, CNA, "Cancelled"]
         raises_props = ("C15",)
 
         def callsite(self, c, ev):
